@@ -37,7 +37,7 @@ func (g *Gen) newFuncVC(fn *ssa.Function, key string, c *Contract) *FuncVC {
 	return &FuncVC{G: g, Fn: fn, Key: key, C: c, declared: map[string]bool{}, counters: map[string]int{}, assumptions: map[string]bool{},
 		strConsts: map[string]string{}, predCache: map[string]string{}, inlined: map[string]bool{}, callees: map[string]bool{},
 		hsort: map[string]string{}, closures: map[ssa.Value]bool{}, knownLen1: map[string]bool{}, inlineStack: map[*ssa.Function]int{},
-		usedContracts: map[string]bool{}, usedLemmas: map[string]bool{}}
+		usedContracts: map[string]bool{}, usedLemmas: map[string]bool{}, defs: map[string]string{}, loadCache: map[string]cacheEnt{}, predIdx: map[string]int{}, callOrd: map[string]int{}, firedGhosts: map[*GhostClause]bool{}}
 }
 
 // generate builds all obligations of one function under contract.
@@ -118,9 +118,27 @@ func (g *Gen) generate(key string, c *Contract) (*FuncVC, error) {
 			f.modSet = append(f.modSet, locs...)
 		}
 	}
+	if c != nil && c.Split != nil && c.Split.Expr != nil {
+		env := f.envFor(fr, st, token.NoPos)
+		env.entryParams = true
+		v, _, err := env.expr(c.Split.Expr)
+		if err != nil || (v.K != KInt && v.K != KBV) {
+			f.staleClause(c.Split, fmt.Errorf("split: %v", err))
+		} else {
+			f.splitTerm = f.define("split", "Int", f.indexTerm(v))
+			f.oblig("split.cover", st, fmt.Sprintf("(and (<= %d %s) (<= %s %d))", c.SplitLo, f.splitTerm, f.splitTerm, c.SplitHi), fn.Pos(), "case split covers every value allowed by the preconditions: "+c.Split.Text)
+		}
+	}
 	// heap versions may have been declared lazily while translating; entry state = state after requires
 	f.entryState = st.clone()
 	f.execFrame(fr, st)
+	if c != nil {
+		for _, g := range c.Ghosts {
+			if g.Line != "" && !f.firedGhosts[g] {
+				f.staleClause(g.C, fmt.Errorf("no source line contains %q", g.Line))
+			}
+		}
+	}
 	// reachability probe: some return must be reachable, otherwise the preconditions are contradictory
 	if len(fr.returns) > 0 {
 		var rs []string
@@ -171,12 +189,8 @@ var solvers = []Solver{
 func (f *FuncVC) header() string {
 	var b strings.Builder
 	b.WriteString("(set-logic ALL)\n")
-	b.WriteString(f.G.Prelude)
-	if f.C != nil && f.C.Opts["conv"] == "exact" {
-		b.WriteString(f.G.ConvExact)
-	} else {
-		b.WriteString(f.G.ConvUF)
-	}
+	exactConv := f.C != nil && f.C.Opts["conv"] == "exact"
+	b.WriteString(f.G.preludeText(exactConv || f.exactAll, f.exactAll))
 	for _, d := range f.decls {
 		b.WriteString(d)
 		b.WriteByte('\n')
@@ -208,7 +222,11 @@ func (f *FuncVC) queryFor(o *Obligation, model bool) string {
 }
 
 func runSolver(s Solver, file string, timeout time.Duration, extra ...string) (string, string, float64) {
-	ctx, cancel := context.WithTimeout(context.Background(), timeout+2*time.Second)
+	return runSolverCtx(context.Background(), s, file, timeout, extra...)
+}
+
+func runSolverCtx(parent context.Context, s Solver, file string, timeout time.Duration, extra ...string) (string, string, float64) {
+	ctx, cancel := context.WithTimeout(parent, timeout+2*time.Second)
 	defer cancel()
 	args := append([]string{}, s.Cmd[1:]...)
 	switch {
@@ -234,7 +252,9 @@ func runSolver(s Solver, file string, timeout time.Duration, extra ...string) (s
 	switch first {
 	case "sat", "unsat", "unknown":
 	default:
-		if strings.Contains(first, "timeout") || ctx.Err() != nil {
+		if parent.Err() != nil {
+			first = "cancelled"
+		} else if strings.Contains(first, "timeout") || ctx.Err() != nil {
 			first = "timeout"
 		} else if first == "" {
 			first = "timeout"
@@ -321,6 +341,83 @@ func (f *FuncVC) batchSolve(dir string, perQueryMs int) {
 	}
 }
 
+var solverSem = make(chan struct{}, 14)
+
+// solveFast tries z3 5.1.0 alone with a short timeout (one process per obligation: measured to be
+// much more robust than one incremental session per function).
+func (f *FuncVC) solveFast(o *Obligation, dir string, timeout time.Duration) {
+	file := filepath.Join(dir, sanitize(o.Name)+".smt2")
+	os.WriteFile(file, []byte(f.queryFor(o, false)), 0o644)
+	if timeout < time.Second {
+		timeout = time.Second
+	}
+	t := timeout
+	if o.expectSat {
+		t = time.Second
+	}
+	a, _, sec := runSolver(solvers[0], file, t)
+	o.Seconds = sec
+	o.Backend = solvers[0].Name
+	o.Output = solvers[0].Name + ":" + a
+	switch {
+	case !o.expectSat && a == "unsat":
+		o.Status = "discharged"
+	case o.expectSat && a != "unsat":
+		o.Status = "discharged"
+	case o.expectSat && a == "unsat":
+		o.Status = "vacuous"
+	}
+	if o.Status == "discharged" {
+		os.Remove(file)
+	}
+}
+
+// solveSplit discharges an obligation once per value of the contract's `split` expression.
+func (f *FuncVC) solveSplit(o *Obligation, dir string, timeout time.Duration) {
+	base := f.queryFor(o, false)
+	idx := strings.LastIndex(base, "(assert (not ")
+	if idx < 0 {
+		return
+	}
+	t0 := time.Now()
+	var wg sync.WaitGroup
+	n := f.C.SplitHi - f.C.SplitLo + 1
+	oks := make([]bool, n)
+	for c := f.C.SplitLo; c <= f.C.SplitHi; c++ {
+		wg.Add(1)
+		go func(c int) {
+			defer wg.Done()
+			q := base[:idx] + fmt.Sprintf("(assert (= %s %d))\n", f.splitTerm, c) + base[idx:]
+			file := filepath.Join(dir, sanitize(o.Name)+fmt.Sprintf(".case%d.smt2", c))
+			os.WriteFile(file, []byte(q), 0o644)
+			a, _, _ := runSolver(solvers[0], file, timeout)
+			if a != "unsat" {
+				// second chance with the other solvers
+				for _, s := range solvers[1:] {
+					if a2, _, _ := runSolver(s, file, timeout); a2 == "unsat" {
+						a = "unsat"
+						break
+					}
+				}
+			}
+			if a == "unsat" {
+				oks[c-f.C.SplitLo] = true
+				os.Remove(file)
+			}
+		}(c)
+	}
+	wg.Wait()
+	for _, ok := range oks {
+		if !ok {
+			return
+		}
+	}
+	o.Status = "discharged"
+	o.Backend = fmt.Sprintf("z3-5.1.0 (case split %s = %d..%d)", f.C.Split.Text, f.C.SplitLo, f.C.SplitHi)
+	o.Seconds = time.Since(t0).Seconds()
+	o.Output = "unsat in every case"
+}
+
 // solveOne runs the portfolio on a single obligation.
 func (f *FuncVC) solveOne(o *Obligation, dir string, timeout time.Duration) {
 	file := filepath.Join(dir, sanitize(o.Name)+".smt2")
@@ -332,9 +429,11 @@ func (f *FuncVC) solveOne(o *Obligation, dir string, timeout time.Duration) {
 		s        Solver
 	}
 	ch := make(chan res, len(solvers))
+	ctx, cancelAll := context.WithCancel(context.Background())
+	defer cancelAll()
 	for _, s := range solvers {
 		go func(s Solver) {
-			a, out, sec := runSolver(s, file, timeout)
+			a, out, sec := runSolverCtx(ctx, s, file, timeout)
 			ch <- res{a, out, sec, s}
 		}(s)
 	}
@@ -343,22 +442,20 @@ func (f *FuncVC) solveOne(o *Obligation, dir string, timeout time.Duration) {
 	for range solvers {
 		r := <-ch
 		answers = append(answers, r.s.Name+":"+r.ans)
-		if decided {
-			continue
-		}
 		if o.expectSat {
 			if r.ans == "sat" {
 				o.Status, o.Backend, o.Seconds, decided = "discharged", r.s.Name, r.sec, true
 			} else if r.ans == "unsat" {
 				o.Status, o.Backend, o.Seconds, decided = "vacuous", r.s.Name, r.sec, true
 			}
-			continue
-		}
-		if r.ans == "unsat" {
+		} else if r.ans == "unsat" {
 			o.Status, o.Backend, o.Seconds, decided = "discharged", r.s.Name, r.sec, true
 		} else if r.ans == "sat" {
 			o.Status, o.Backend, o.Seconds, decided = "failed", r.s.Name, r.sec, true
-			o.Output = "sat"
+		}
+		if decided {
+			cancelAll()
+			break
 		}
 	}
 	if !decided {
@@ -421,19 +518,20 @@ func (g *Gen) verifyFunction(key string, c *Contract, smtDir string, quickMs int
 		r.Lemmas = append(r.Lemmas, k)
 	}
 	sort.Strings(r.Lemmas)
-	f.batchSolve(smtDir, quickMs)
 	var wg sync.WaitGroup
-	sem := make(chan struct{}, 4)
 	for _, o := range f.obls {
-		if o.Status != "" {
-			continue
-		}
 		wg.Add(1)
 		go func(o *Obligation) {
 			defer wg.Done()
-			sem <- struct{}{}
-			defer func() { <-sem }()
-			f.solveOne(o, smtDir, slow)
+			solverSem <- struct{}{}
+			defer func() { <-solverSem }()
+			f.solveFast(o, smtDir, time.Duration(quickMs)*time.Millisecond)
+			if o.Status == "" && f.splitTerm != "" && !o.expectSat && o.Kind != "split.cover" {
+				f.solveSplit(o, smtDir, time.Duration(quickMs)*time.Millisecond)
+			}
+			if o.Status == "" {
+				f.solveOne(o, smtDir, slow)
+			}
 		}(o)
 	}
 	wg.Wait()
